@@ -13,7 +13,7 @@ TEXT = {
  "C02": dict(
    engine="hv", design_ref="DESIGN.md 3.C02",
    technique="runtime monitoring with a recording handler behind the real server: per-call handler-log oracle (operation, values, payload, fd identity via fstat/eventfd-id), peer byte counter for locally rejected calls",
-   level_text="Every operation of the Frontend API is called (valid arguments from lattice+random, each NEED_REPLY/REPLY_ACK configuration, direct and through the library's RwLock/RefCell adapters, at random positions of a long session) against the real BackendReqHandler serving a recording handler wrapped in the library's Mutex adapter. Oracle: exactly one new log entry, equal arguments/payload/descriptor identity (different fd number, same object), present at return time whenever a reply or negotiated ack is awaited; lent descriptors still intact. All local-rejection classes are issued against a raw peer and must leave zero bytes.",
+   level_text="Every operation of the Frontend API is called (valid arguments from lattice+random, each NEED_REPLY/REPLY_ACK configuration, direct and through the library's RwLock/RefCell adapters, at random positions of a long session) against the real BackendReqHandler serving a recording handler wrapped in the library's Mutex adapter. Oracle: exactly one new log entry, equal arguments/payload/descriptor identity (different fd number, same object), present at return time whenever a reply or negotiated ack is awaited; lent descriptors still intact. All local-rejection classes are issued against a raw peer and must leave zero bytes. Each feature-gated operation is also issued after acknowledging exactly its own protocol-feature bit (must reach the handler) and every bit but its own (must be refused locally). A call that can never return (blocked-reader certificate over caller and server thread) is a violation, not a hang.",
    level_note="Trusted: FeOp::expected_call (what 'identical arguments' means per operation). SET_LOG_BASE only in the shmfd form; SET_LOG_FD has no backend handler (observed).",
  ),
  "C03": dict(
@@ -25,7 +25,7 @@ TEXT = {
  "C08": dict(
    engine="hv", design_ref="DESIGN.md 3.C08",
    technique="fault enumeration on the transport: deterministic segmentation/truncation by a raw peer (next segment only after SIOCINQ==0), differential oracle against single-write delivery; sender side under a minimal non-blocking send buffer with certified partial writes",
-   level_text="Each message type is delivered to each receiver (both request servers, the reply paths of Frontend/Backend proxy/GpuBackend) in every 2-split, 3-splits, byte-by-byte and random segmentations and must produce the same result, handler log and replies as a single write; every cut offset followed by end-of-stream must yield an error (clean Disconnected only at offset 0), no dispatch and no blocked reader. Senders run on a non-blocking socket with SO_SNDBUF at its minimum while a slow reader certifies partial writes and checks bytes once/in order and descriptors on byte 0 only.",
+   level_text="Each message type is delivered to each receiver (both request servers, the reply paths of Frontend/Backend proxy/GpuBackend) in every 2-split, 3-splits, byte-by-byte and random segmentations and must produce the same result, handler log and replies as a single write; every cut offset followed by end-of-stream must yield an error (clean Disconnected only at offset 0), no dispatch and no blocked reader. Senders run on a non-blocking socket with SO_SNDBUF at its minimum while a slow reader certifies partial writes and checks bytes once/in order and descriptors on byte 0 only. The crate-private sender is also driven directly (hook verif_send_with_payload) with messages that are both larger than one socket-buffer segment and descriptor-carrying. A receiver that keeps burning CPU after end-of-stream is reported through the CPU-tick spin certificate.",
    level_note="Trusted: the kernel delivers ancillary data with the first byte of the skb it was sent with; SIOCINQ==0 means the receiver consumed the previous segment. Long messages have their split points sampled in quick tier.",
  ),
  "C04": dict(
@@ -49,13 +49,13 @@ TEXT = {
  "C09": dict(
    engine="hv", design_ref="DESIGN.md 3.C09",
    technique="resource census monitor: /proc/self/fd (number+identity) before/after each scenario, identity re-check of delivered and lent descriptors",
-   level_text="Hostile streams with 0..=40 descriptors (on requests that take none, on body bytes, beyond the 32-descriptor receive limit) are run against both request servers with teardown after every request index and handler success/failure/drop; frontend calls are answered with unwanted descriptors; proxies are lent descriptors. After everything is dropped the open-descriptor set must equal the baseline; delivered files must still be valid when the handler drops them; lent descriptors must be unchanged.",
+   level_text="Hostile streams with 0..=40 descriptors (on requests that take none, on body bytes, beyond the 32-descriptor receive limit) are run against both request servers with teardown after every request index and handler success/failure/drop; frontend calls are answered with unwanted descriptors; proxies are lent descriptors. After everything is dropped the open-descriptor set must equal the baseline; delivered files must still be valid when the handler drops them; lent descriptors must be unchanged. A connection reset in the middle of a descriptor-carrying message (peer closes with unread data; certified by the ECONNRESET the library reports) must not leak either.",
    level_note="Trusted: (st_dev, st_ino)+eventfd-id as identity. Daemon-level scenarios (kick/call/err replacement, exit events) are covered by the hd unit of C09.",
  ),
  "C10": dict(
    engine="hv", design_ref="DESIGN.md 3.C10",
    technique="schedule enumeration with instrumented hold points + scripted withholding peer (ordering/tag oracle) + /proc deadlock certificate; TSan overlay on the stress phase",
-   level_text="Clones of each endpoint are driven from 2-3 threads; the *.sent hold points park a caller between 'request written' and 'reply read' while the controller starts the others; the raw peer withholds and tags replies. Every well-formed order of {start, grant, reply} for 2 callers over all call-kind mixes is run (3 callers sampled) and the oracle checks: no second request while a reply is owed or unconsumed, every caller gets its own tag, all calls complete (else a futex/recvmsg quiescence certificate). A jittered 8-thread stress run and a TSan build of it follow.",
+   level_text="Clones of each endpoint are driven from 2-3 threads; the *.sent hold points park a caller between 'request written' and 'reply read' while the controller starts the others; the raw peer withholds and tags replies. Every well-formed order of {start, grant, reply} for 2 callers over all call-kind mixes is run (3 callers sampled) and the oracle checks: no second request while a reply is owed or unconsumed, every caller gets its own tag, all calls complete (else a futex/recvmsg quiescence certificate). The GPU channel's acknowledged operation runs with boundary rectangles (incl. empty); after all calls returned no reply byte may be left unread; the peer also closes the channel at every point of one and two transactions (every call must still return). A jittered 8-thread stress run and a TSan build of it follow.",
    level_note="Granularity = hold points; a race entirely inside one step is only visible to TSan / the stress oracle.",
  ),
  "C11": dict(
@@ -97,7 +97,7 @@ TEXT = {
  "C17": dict(
    engine="hd", design_ref="DESIGN.md 3.C17",
    technique="configuration enumeration with a recording backend: (worker tid, thread_id, device_event, size of vrings[device_event]) per kick; custom listener ids probed on fresh daemons",
-   level_text="For every queues-per-thread configuration (exhaustive for small n,t incl. sparse/overlapping masks and bits beyond the queue count) each queue is given a distinct size, started, enabled and kicked; exactly one dispatch must occur, on the first thread whose mask contains the queue, with event id = rank and vrings[event id] = that queue. Custom listener ids across the 64-bit range must be refused or delivered with exactly the registered id.",
+   level_text="For every queues-per-thread configuration (exhaustive for small n,t incl. sparse/overlapping masks and bits beyond the queue count) each queue is given a distinct size, started, enabled and kicked; exactly one dispatch must occur, on the first thread whose mask contains the queue, with event id = rank and vrings[event id] = that queue. Custom listener ids across the 64-bit range must be refused or delivered with exactly the registered id. Dropping the daemon (exit event, id num_queues) must terminate every worker and must never reach the backend handler (bounded teardown with thread-state certificates).",
    level_note="Worker identity = tid learnt through a custom listener on the same epoll handler.",
  ),
  "C18": dict(
